@@ -208,6 +208,8 @@ impl FeoxStore {
                         .filter(|_| !self.memory_only)
                         .map(|_| Arc::clone(&record));
                     let _entry = entry.insert_entry(Arc::clone(&record));
+                    #[cfg(feoxdb_verif)]
+                    crate::verif::emit("pub", key, timestamp, ttl_expiry, 1);
                     self.insert_into_tree(key_vec, record);
                     self.observe_published_timestamp(key, timestamp, explicit_timestamp);
                     reservation.commit();
@@ -333,6 +335,8 @@ impl FeoxStore {
                         .filter(|_| !self.memory_only)
                         .map(|_| Arc::clone(&record));
                     let _entry = entry.insert_entry(Arc::clone(&record));
+                    #[cfg(feoxdb_verif)]
+                    crate::verif::emit("pub", key, timestamp, ttl_expiry, 1);
                     self.insert_into_tree(key_vec, record);
                     self.observe_published_timestamp(key, timestamp, explicit_timestamp);
                     reservation.commit();
@@ -544,6 +548,8 @@ impl FeoxStore {
                 }
                 let record_size = record.calculate_size();
                 let old_value_len = record.value_len;
+                #[cfg(feoxdb_verif)]
+                crate::verif::emit("pub", key, timestamp, 0, 3);
                 record.retired_at.store(timestamp, Ordering::Release);
                 record.refcount.store(0, Ordering::Release);
                 // Ordered index first: a key vanishing early from a range scan is
